@@ -20,4 +20,43 @@ MUTANTS = {
         "broadcast_addresses_inverted": [("_core.py", "broadcast_addresses = not bool(entries)", "broadcast_addresses = bool(entries)")],
         "close_goodbye_without_addresses": [("_core.py", "            self._add_broadcast_answer(out, info, 0)", "            self._add_broadcast_answer(out, info, 0, False)")],
     },
+    "C04": {
+        # NOTE: swapping the Added/Removed precedence in _enqueue_callback is *not* listed: under the property's
+        # restrictions (no case twins inside one datagram) one datagram never yields Added and Removed for one key,
+        # so that mutant is equivalent within C04's quantifier (confirmed: 4000 clean runs).
+        "fire_before_cache_update": [("_services/browser.py", """                continue
+
+            # If its expired or already exists in the cache it cannot be updated.""", """                self.async_update_records_complete()
+                continue
+
+            # If its expired or already exists in the cache it cannot be updated.""")],
+        "purge_not_reported": [("_engine.py", "now, [RecordUpdate(record, record) for record in self.zc.cache.async_expire(now)]",
+                                "now, [RecordUpdate(record, record) for record in self.zc.cache.async_expire(now)][:0]")],
+        "goodbye_ignored_by_browser": [("_services/browser.py", "                    elif pointer.is_expired(now):", "                    elif pointer.is_expired(now) and pointer.ttl != 0:")],
+    },
+    "C06": {
+        "add_before_notify": [("_handlers/record_manager.py", """        if updates:
+            self.async_updates(now, updates)
+""", """        if other_adds or address_adds:
+            cache.async_add_records(address_adds)
+        if updates:
+            self.async_updates(now, updates)
+""")],
+        "removes_before_notify": [("_handlers/record_manager.py", """        if updates:
+            self.async_updates(now, updates)
+""", """        if removes:
+            cache.async_remove_records(removes)
+            removes = set()
+        if updates:
+            self.async_updates(now, updates)
+""")],
+        "listeners_not_copied": [("_handlers/record_manager.py", "        for listener in self.listeners.copy():\n            listener.async_update_records(self.zc, now, records)",
+                                  "        for listener in list(self.listeners)[:1] + list(self.listeners)[:]:\n            listener.async_update_records(self.zc, now, records)")],
+        "floor_all_types": [("_handlers/record_manager.py", "if record_ttl and record_type == _TYPE_PTR and record_ttl < _DNS_PTR_MIN_TTL:",
+                             "if record_ttl and record_ttl < _DNS_PTR_MIN_TTL:")],
+        "flush_window_ge": [("_cache.py", "if (now - created_double > _ONE_SECOND) and record not in answers_rrset:",
+                      "if (now - created_double >= _ONE_SECOND) and record not in answers_rrset:")],
+        "created_not_arrival": [("_handlers/record_manager.py", "                    maybe_entry.reset_ttl(record)", "                    maybe_entry.set_created_ttl(maybe_entry.created, record.ttl)")],
+        "complete_only_when_new": [("_handlers/record_manager.py", "        if updates:\n            self.async_updates_complete(new)", "        if updates and new:\n            self.async_updates_complete(new)")],
+    },
 }
